@@ -1,7 +1,7 @@
 SPECIFICATION MSpec
 CONSTANTS
   Routers = {"P", "L"}
-  Ops = {"Authorize", "Login", "Callback", "CodeExchange", "UserInfo", "Introspect", "Revoke", "Expire", "EndSession"}
+  Ops = {"Authorize", "Login", "Callback", "CodeExchange", "UserInfo", "Introspect", "Revoke", "Expire", "EndSession", "TokenExchange"}
   MaxReq = 3
   MaxCode = 4
   MaxAT = 6
